@@ -14,7 +14,7 @@ pub struct Built {
     pub parser_parts: (usize, &'static LRParseTable, &'static [LRProduction], &'static [&'static str]),
 }
 
-fn lr_grammar(rng: &mut Rng, conflicts: bool) -> G {
+pub fn lr_grammar(rng: &mut Rng, conflicts: bool) -> G {
     if conflicts && rng.chance(1, 2) {
         // ambiguity-rich: few non-terminals, many alternatives, nullable symbols
         let d = Dials { max_nts: 2, max_terms: 2, max_alts: 4, max_rhs: 3, eps_pct: 25, nt_pct: 60 };
